@@ -274,8 +274,29 @@ PredictRead(W, r) ==
                    IF i = W.N * W.M + 1 THEN EvalW(r.e, W, EnvNode(W, W.N), W.N)
                    ELSE EvalW(r.e, W, EnvIntg(W, (i - 1) \div W.M, (i - 1) % W.M), -1)])]
 
+\* all sampling points of a grid option, as point records
+GridPoints(W, grid) ==
+  CASE grid = "control"    -> Tup([k \in 1..W.N + 1 |-> [k |-> k - 1, l |-> 0, j |-> 0]])
+    [] grid = "control-"   -> Tup([k \in 1..W.N |-> [k |-> k - 1, l |-> 0, j |-> 0]])
+    [] grid = "integrator" -> Tup([i \in 1..W.N * W.M + 1 |->
+                                 IF i = W.N * W.M + 1 THEN [k |-> W.N, l |-> 0, j |-> 0]
+                                 ELSE [k |-> (i - 1) \div W.M, l |-> (i - 1) % W.M, j |-> 0]])
+    [] grid = "roots"      -> LET deg == W.d.method.degree
+                              IN Tup([i \in 1..W.N * W.M * deg |->
+                                   [k |-> (i - 1) \div (W.M * deg), l |-> ((i - 1) \div deg) % W.M, j |-> ((i - 1) % deg) + 1]])
+EnvPt(W, pt) == IF pt.j > 0 THEN EnvRoot(W, pt.k, pt.l, pt.j)
+                ELSE IF pt.l = 0 THEN EnvNode(W, pt.k) ELSE EnvIntg(W, pt.k, pt.l)
+TimeOf(W, pt) == EnvPt(W, pt).t
+EvalMat(es, W, env, k) == Tup([r \in 1..Len(es) |-> Tup([c \in 1..Len(es[r]) |-> EvalW(es[r][c], W, env, k)])])
+
 PredictReadR(W, r) ==
-  IF r.kind = "sample" /\ r.grid = "roots"
+  IF r.kind = "msample"
+  THEN LET pts == GridPoints(W, r.grid)
+       IN [t |-> Tup([i \in 1..Len(pts) |-> TimeOf(W, pts[i])]),
+           v |-> Tup([i \in 1..Len(pts) |-> EvalMat(r.es, W, EnvPt(W, pts[i]), IF pts[i].l = 0 /\ pts[i].j = 0 THEN pts[i].k ELSE -1)])]
+  ELSE IF r.kind = "mvalue"
+  THEN [t |-> <<>>, v |-> <<EvalMat(r.es, W, EnvNS(W), -1)>>]
+  ELSE IF r.kind = "sample" /\ r.grid = "roots"
   THEN LET deg == W.d.method.degree
            n == W.N * W.M * deg
            pt(i) == [k |-> (i - 1) \div (W.M * deg), l |-> ((i - 1) \div deg) % W.M, j |-> ((i - 1) % deg) + 1]
